@@ -357,7 +357,8 @@ def fresh_of(a):
         if isinstance(ax, MultiAxis):
             return MultiAxis(*[fa(m) for m in ax.axes])
         return Axis(np.array(ax.values, copy=True), ax.name)
-    return DimArray(np.array(a.values, copy=True), axes=[fa(ax) for ax in a.axes])
+    # (C order: "the same values" is about the logical array, a fresh array does not inherit the memory layout)
+    return DimArray(np.array(a.values, copy=True, order="C"), axes=[fa(ax) for ax in a.axes])
 
 
 def conv(r):
@@ -684,7 +685,7 @@ class C05(Prop):
                 steps.append(["ds_mut", ri(), rng.choice(["set_axis_vals", "set_axis_longer", "rename_axes", "set_axis_name", "del", "axes_relabel",
                                                            "axes_setitem_longer"]), ri(), ri()])
         probes = {"dim": ["is_monotonic", "sum_name"] + rng.sample(DIM_PROBES[:9] + DIM_PROBES[10:], 6 if tier == "quick" else 10),
-                  "arr": ["labels", "transpose_names"] + rng.sample([p for p in ARR_PROBES if p != "labels"], 3 if tier == "quick" else 6)}
+                  "arr": ["labels", "transpose_names", "flatten"] + rng.sample([p for p in ARR_PROBES if p not in ("labels", "flatten")], 3 if tier == "quick" else 6)}
         out = {"op": "hist", "array": arr, "steps": steps, "forms": [], "probes": probes, "theme": theme}
         if more:
             out["more"] = more
